@@ -90,9 +90,14 @@
      MachineC07S.c07s_demo, step 40: x = 40, the override of the caller two calls up, not 0).  The two theorems above
      are the true form.
    C07_stree_hypotheses_are_met: the demo run (non-vacuity; all flush points with the layers still applied).
-   NOT PROVED for stree: the 'owners await' clause (C07_layer_owners_await) - that every owner of a layer below t
-     reaches t through dependency lists and synchronous calls; only the classification "caller inside value() or task
-     with scheduled dependencies" is proved.  Still excluded: ReadVar/Probe-branching programs, Sync on an existing
+   C07_layer_owners_await_stree ("the tasks (transitively) awaiting it"; needs stree p only): while code of t runs, the
+     owner u of every layer below t's own awaits t - [MachineC07S.awaits s frames u t]: a chain from u to t whose links are
+     (a) v is in the dependency list of an uncompleted task w (w yielded v), or (b) a caller w is suspended in value() on
+     r: the frames contain  FWait r :: FValue w k  (w called r synchronously).  For yield-only programs only (a) occurs
+     and this is C07_layer_owners_await.
+   NOT PROVED for stree: an end-to-end equation with a sequential evaluator for scoped values (as for tree programs the
+     read theorem is stated on the machine state at the moments a task's code runs).  Still excluded:
+     ReadVar/Probe-branching programs, Sync on an existing
      handle (LOld / shared futures), NonAsyncContext and raising contexts, with-blocks left open at task end,
      non-pointwise services, runs in which the task-stack guard fired. *)
 From Asynq Require Import Machine Seq proofs.MachineC08 proofs.MachineC01 proofs.MachineC04 proofs.MachineC07.
@@ -286,6 +291,17 @@ Theorem C07_layers_are_the_active_contexts_stree : forall P, pointwise P -> fora
   exists tk, get u s = Some (mkFut None (KTask tk)) /\ tk_cact tk = true /\ In c (tk_ctxs tk).
 Proof. exact layers_are_the_active_contexts_stree. Qed.
 Print Assumptions C07_layers_are_the_active_contexts_stree.
+
+(* the owners of the lower layers await the running task: dependency links and synchronous-call links *)
+Theorem C07_layer_owners_await_stree : forall P, pointwise P -> forall p, stree p -> forall n t q,
+  let h := fst (create [] (FTask p) (st0 P)) in
+  let s1 := snd (create [] (FTask p) (st0 P)) in
+  no_unwind P n (start h s1) -> c_mode (run P n (start h s1)) = MRun t q ->
+  let c := run P n (start h s1) in
+  let s := c_st c in
+  forall rest, tasks s = t :: rest -> forall u cx, In (u, cx) (lower s rest) -> awaits s (c_frames c) u t.
+Proof. exact layer_owners_await_stree. Qed.
+Print Assumptions C07_layer_owners_await_stree.
 
 (* the save-and-restore invariant *)
 Theorem C07_saved_values_stree : forall P, pointwise P -> forall p, stree p -> wns [] p -> forall n,
